@@ -877,9 +877,6 @@ def case_collide(g, T):
         if d.get_field_tuples() != tuple(fl):
             raise Bad("RecordDescriptor(%r, %r).get_field_tuples() = %r" % (name, fl, d.get_field_tuples()), {})
         recs.append(d(_source=rnd.choice([None, "src"]), _generated=rnd.choice(GENS), **{n: sample_value(g, t) for t, n in fl}))
-    if recs[0]._desc == recs[1]._desc or not (recs[0]._desc != recs[1]._desc):
-        raise Bad("RecordDescriptor(%r, %r) == RecordDescriptor(%r, %r): descriptors of different definitions compare equal" % (
-            name, fa, name, fb), dict(fields_a=fa, fields_b=fb))
     partners = [g.record(g.descriptor(lo=0, hi=3), preuse=False) for _ in range(rnd.randint(0, 2))]
     pobs = [obs(p) for p in partners]
     pos = rnd.randint(0, len(partners))
@@ -921,6 +918,20 @@ def case_collide(g, T):
             raise Bad("%s gave %s, expected %s" % (what, repr(got), repr(want)),
                       dict(op=op, fields_a=fa, fields_b=fb, replace=replace, name=newname, got=repr(got), want=repr(want)))
         check_unchanged(sobs, seq, what)
+    if recs[0]._desc == recs[1]._desc or not (recs[0]._desc != recs[1]._desc):
+        demo = ""
+        try:
+            extend_record(recs[0], [], name="coll/demo")
+            second = obs(extend_record(recs[1], [], name="coll/demo"))
+            wsecond = ref_extend([obs(recs[1])], False, "coll/demo")
+            if second != wsecond:
+                demo = "; e.g. extend_record(<record of the second>, [], name='coll/demo') right after the same call for the first gave %s, expected %s" % (
+                    repr(second), repr(wsecond))
+        except Exception as e:  # noqa
+            demo = "; extend_record raised %s: %s" % (type(e).__name__, e)
+        raise Bad("RecordDescriptor(%r, %r) == RecordDescriptor(%r, %r): descriptors of different definitions compare equal, so the "
+                  "descriptor-keyed caches (merge_record_descriptors / extend_record / RecordFieldRewriter) hand one's result to the other%s" % (
+                      name, fa, name, fb, demo), dict(fields_a=fa, fields_b=fb))
     return [], ("collide", op, name, tuple(fa), tuple(fb), replace, newname, repr(pobs), pos), True
 
 
